@@ -30,6 +30,11 @@ package eni
 //@   requires ipv4 == nil || ipv4.podID == "" || ipv4.podID == podID
 //@   requires ipv6 == nil || ipv6.podID == "" || ipv6.podID == podID
 
+//@ # the slow path (a request parked until the factory delivers): what it commits was looked up after its last wait — the
+//@ # wait releases the pool lock, anything remembered from before it may have been given away, invalidated or unassigned
+//@ func Local.allocWorker
+//@   requires l != nil && l.eni != nil && l.cond != nil && l.ipv4 != nil && l.ipv6 != nil && cni != nil
+//@   yields
 //@ guard call IP.Allocate in commit: recv.podID == "" || recv.podID == arg0
 //@ guard call IP.Allocate in Allocate: recv.podID == "" || recv.podID == arg0
 
